@@ -53,6 +53,11 @@ Section Flat'.
   Definition flat_list' (l : list rt) : list (wins * N) := flat_map flat' l.
 End Flat'.
 
+(* the i-th element of a br_table's targets, the default when out of range; recursion on the LIST, so that an index of 2^32 - 1 is
+   not expanded into a unary number when the model is executed *)
+Fixpoint nthN (i : N) (l : list N) (d : N) : N :=
+  match l with [] => d | x :: r => if i =? 0 then x else nthN (i - 1) r d end.
+
 (* ------------------------------------------------------------------ big-step evaluation *)
 Section Sem.
   Variable S : Type.        (* machine state: value stack, locals, globals, memories, tables, host trace *)
@@ -63,14 +68,19 @@ Section Sem.
 
   Variable pop_cond : S -> option (bool * S).     (* br_if / if *)
   Variable pop_index : S -> option (N * S).       (* br_table *)
-  Variable unwind : N -> S -> S.  (* drop the operand stack to the label's height, keeping that many values *)
+  (* label discipline: an instance records, at block entry, the height the operand stack had *)
+  Variable unwind : N -> S -> S.  (* a branch TO this construct: keep that many values, drop the operand stack to the
+                                     recorded height, pop the label record (a loop is then re-entered by [rerun]) *)
+  Variable enter : blockty -> S -> S.  (* entering a block / loop / if-arm (condition already popped): push a label record *)
+  Variable leave : S -> S.        (* the construct is left by falling through its end, or a branch to an OUTER label
+                                     passes through it: pop the innermost label record, keep the operand stack *)
 
   (* what a branch that targets the construct itself (relative depth 0 inside) does *)
   Definition close (r : res) (on_br0 : S -> res) : res :=
     match r with
-    | Fall s' => Fall s'
+    | Fall s' => Fall (leave s')
     | Br O s' => on_br0 s'
-    | Br (Datatypes.S k) s' => Br k s'
+    | Br (Datatypes.S k) s' => Br k (leave s')
     | r => r
     end.
 
@@ -103,16 +113,17 @@ Section Sem.
         | RBrTable ds d _ =>
             match pop_index s with
             | None => Stuck
-            | Some (i, s') => Br (N.to_nat (nth (N.to_nat i) ds d)) s'
+            | Some (i, s') => Br (N.to_nat (nthN i ds d)) s'
             end
-        | RBlock bt b _ _ => close (evl b s) (fun s' => Fall (unwind (arity bt) s'))
-        | RLoop bt b _ _ => close (evl b s) (fun s' => rerun t (unwind (loop_arity bt) s'))
+        | RBlock bt b _ _ => close (evl b (enter bt s)) (fun s' => Fall (unwind (arity bt) s'))
+        | RLoop bt b _ _ => close (evl b (enter bt s)) (fun s' => rerun t (unwind (loop_arity bt) s'))
         | RIf bt th el _ _ =>
             match pop_cond s with
             | None => Stuck
-            | Some (true, s') => close (evl th s') (fun s'' => Fall (unwind (arity bt) s''))
+            | Some (true, s') => close (evl th (enter bt s')) (fun s'' => Fall (unwind (arity bt) s''))
             | Some (false, s') =>
-                close (match el with Some (_, eb) => evl eb s' | None => Fall s' end)
+                (* an absent else arm is an EMPTY else arm: entered, then left *)
+                close (match el with Some (_, eb) => evl eb (enter bt s') | None => Fall (enter bt s') end)
                       (fun s'' => Fall (unwind (arity bt) s''))
             end
         end.
